@@ -245,7 +245,7 @@ def work_store(ctx, item):
 
 def work_generated(ctx, seed):
     rng = random.Random(seed)
-    kind = ['plain', 'high-am', 'ecp-only', 'ecp-gap'][seed % 4]
+    kind = ['plain', 'high-am', 'ecp-only', 'ecp-gap', 'ecp-single'][seed % 5]
     if kind == 'high-am':
         b = gen.gen_basis(rng, nel=1, ecp_prob=0.0, ecp_only_prob=0.0, lmax=rng.randint(7, 12), allow_fused=False)
     elif kind == 'ecp-only':
@@ -257,6 +257,16 @@ def work_generated(ctx, seed):
             pots, ne = gen.gen_ecp(rng, lmax=3, gaps=True)
             el['ecp_potentials'], el['ecp_electrons'] = pots, ne
             b['function_types'] = gen.whole_types(b['elements'])
+    elif kind == 'ecp-single':
+        # an ECP that consists of one potential (in NWChem: the `ul` potential only)
+        b = gen.gen_basis(rng, nel=1, ecp_prob=0.0, ecp_only_prob=0.0, lmax=2)
+        z, el = next(iter(b['elements'].items()))
+        if int(z) > 10:
+            pots, ne = gen.gen_ecp(rng, lmax=0)
+            el['ecp_potentials'], el['ecp_electrons'] = pots, ne
+            if rng.random() < 0.3:
+                del el['electron_shells']
+            b['function_types'] = gen.whole_types(b['elements'])
     else:
         b = gen.gen_basis(rng, ecp_prob=0.4)
     for fmt in rw_formats():
@@ -267,7 +277,7 @@ def work_generated(ctx, seed):
 
 
 def run(ctx):
-    ctx.rule = ('for store basis sets (element subsets) and generated dictionaries (plain, l = 7..12, ECP-only, ECP with a momentum gap) x '
+    ctx.rule = ('for store basis sets (element subsets) and generated dictionaries (plain, l = 7..12, ECP-only, ECP with a momentum gap, ECP of a single potential) x '
                 'every format with both a writer and a reader: write then read back; the read-back must hold exactly the same elements, '
                 'contracted functions (exact decimal values), ECP potentials and electron counts, or raise; gaussian94, nwchem (and '
                 'turbomole with electron shells) must succeed; .bz2 files with extension autodetection; conversion A -> B vs direct '
